@@ -133,6 +133,17 @@ def main(chk):
                 idx = g.call('fd_prestat_dir_name', [fd, 0x4000, blen])
                 di = g.dump(0x4000, len(p) + 16)
                 checks.append(('prestat-name', di, (p, blen), idx))
+        # ---- pre-opened directories are descriptors like any other: list / stat them through their own numbers, so that they carry
+        # internal state (an open directory stream) when some of them are closed later
+        for i, p in enumerate(preopens):
+            for _ in range(r.randint(0, 2)):
+                use = r.choice(['fd_readdir', 'fd_readdir', 'fd_fdstat_get', 'fd_filestat_get'])
+                g.poke(0x3000, b'\0' * 8)
+                if use == 'fd_readdir':
+                    idx = g.call(use, [first_fd + i, 0x7000, r.choice([64, 512, 4096]), 0, 0x7800])
+                else:
+                    idx = g.call(use, [first_fd + i, 0x3000])
+                checks.append(('errno', idx, 0, use + '(preopen)'))
         # ---- stdio
         msg1 = b'to-stdout-%d\n' % k
         msg2 = b'to-stderr-%d\n' % k
